@@ -1,0 +1,105 @@
+//go:build verif
+
+package opshell
+
+// Contracts for the verification machinery in /verif (govc).  This file is
+// comment-only and is compiled only with -tags verif.
+
+//@ type Shell as s
+//@   nonnil t, silenceTimer
+//@   lock wL protects silenced, lastPlainWrite
+
+// ---- Ctrl+O mute (C19) and plain output (C03)
+
+// writePlain: muted => nothing written, the lull clock restarts; not muted =>
+// exactly the given string is written once, nothing added.
+//@ func Shell.writePlain(s, line) (err)
+//@   props C19 C03
+//@   ghost sil0 bool = false
+//@   ghost nWrite int = 0
+//@   ghost nReset int = 0
+//@   on call Mutex.Lock(m): sil0 = s.silenced
+//@   on enter io.WriteString(w, str): assert(!sil0 && w == s.t && str == line && nWrite == 0, "only_unmuted_output_is_written_verbatim_once"); nWrite++
+//@   on enter Shell.resetSilenceTimer(ss, upd): assert(sil0 && ss == s && upd && nReset == 0, "muted_output_restarts_the_lull_clock"); nReset++
+//@   exit: assert(s.silenced == sil0, "writePlain_never_changes_muting")
+//@   ensures muted_suppresses: imp(sil0, nWrite == 0 && nReset == 1 && err == nil)
+//@   ensures unmuted_shows: imp(!sil0, nWrite == 1 && nReset == 0)
+
+// Logf: status and log lines are always written, muted or not.
+//@ func Shell.Logf(s, color, noTS, format, v) (n, err)
+//@   props C19 C10
+//@   ghost k int = 0
+//@   on enter logf(w, esc, c, nts, f, vv): assert(w == s.t && c == color && f == format && vv == v && imp(noTS, nts), "always_passed_to_the_terminal_writer_unchanged"); k++
+//@   ensures always_written: k == 1
+
+//@ func logf(w, escape, color, noTS, format, v) (n, err)
+//@   props C10 C19
+//@   nilable escape
+//@   ghost sawMsg bool = false
+//@   ghost nOut int = 0
+//@   on enter bytes.Buffer.WriteString(bb, x): if x == m { sawMsg = true }
+//@   on enter bytes.Buffer.WriteTo(bb, ww): assert(bb == b && ww == w && sawMsg && len(m) != 0, "writes_the_formatted_message_to_w"); nOut++
+//@   ensures message_is_sprintf: nOut <= 1
+
+// resetSilenceTimer: caller holds wL.
+//@ func Shell.resetSilenceTimer(s, updateLast)
+//@   props C19
+//@   holds Shell.wL
+//@   ghost now time.Time
+//@   ghost nNow int = 0
+//@   ghost nReset int = 0
+//@   ghost until time.Duration = 0
+//@   ghost nUntil int = 0
+//@   on call time.Now() (t): now = t; nNow++
+//@   on call time.Until(t) (d): assert(t == s.lastPlainWrite.Add(PlainWritePause), "deadline_is_last_plain_write_plus_pause"); until = d; nUntil++
+//@   on enter time.Timer.Reset(tm, d): assert(tm == s.silenceTimer && nUntil == 1 && d == until && imp(updateLast, nNow == 1 && s.lastPlainWrite == now), "timer_rearmed_for_last_plain_write_plus_pause"); nReset++
+//@   ensures rearmed_once: nReset == 1
+//@   ensures clock_only_on_request: imp(!updateLast, nNow == 0 && s.lastPlainWrite == old(s.lastPlainWrite))
+
+// handleOutput: every received line is handled exactly once: plain lines go to
+// writePlain with the identical string, others to Logf through the constant "%s".
+//@ func Shell.handleOutput(s, ctx) (err)
+//@   props C03 C10 C19
+//@   ghost pending bool = false
+//@   ghost cur CLine
+//@   on recv s.och(cl, ok): assert(!pending, "previous_line_handled"); pending = ok; cur = cl
+//@   on enter Shell.writePlain(ss, line): assert(pending && ss == s && cur.Plain && line == cur.Line, "plain_line_written_verbatim"); pending = false
+//@   on enter Shell.Logf(ss, c, nts, f, v): assert(pending && ss == s && !cur.Plain && f == "%s" && boxes(v[0], cur.Line) && c == cur.Color && nts == cur.NoTimestamp, "status_line_through_constant_format"); pending = false
+//@   loop 1
+//@     invariant handled: !pending
+//@   ensures nothing_left: !pending
+
+// The timer callback: unmutes only after a full pause without plain writes.
+//@ func New#1()
+//@   props C19
+//@   ghost sil0 bool = false
+//@   ghost last0 time.Time
+//@   ghost since time.Duration = 0
+//@   ghost nSince int = 0
+//@   ghost nRearm int = 0
+//@   ghost nAnnounce int = 0
+//@   on call Mutex.Lock(m): sil0 = s.silenced; last0 = s.lastPlainWrite
+//@   on call time.Since(t) (d): assert(t == last0, "lull_measured_from_last_plain_write"); since = d; nSince++
+//@   on enter Shell.resetSilenceTimer(ss, upd): assert(!upd && nSince == 1 && PlainWritePause > since && !last0.IsZero(), "rearm_without_moving_the_clock_when_too_early"); nRearm++
+//@   on go s.Logf(c, nts, f, v): nAnnounce++
+//@   exit: assert(imp(s.silenced != sil0, !s.silenced && !last0.IsZero() && nSince == 1 && since >= PlainWritePause && nAnnounce == 1), "unmute_only_after_a_full_pause_and_announced"); assert(imp(!last0.IsZero() && nSince == 1 && since >= PlainWritePause, !s.silenced), "unmutes_after_a_full_pause"); assert(imp(!last0.IsZero() && nSince == 1 && PlainWritePause > since, nRearm == 1 && s.silenced == sil0), "too_early_rearms_and_stays_muted"); assert(s.lastPlainWrite == last0, "callback_never_moves_the_clock")
+
+// The control-character callback: Ctrl+O mutes (once), other keys never touch muting.
+//@ func New#2(key)
+//@   props C19
+//@   ghost sil0 bool = false
+//@   ghost locked bool = false
+//@   ghost nReset int = 0
+//@   ghost nAnnounce int = 0
+//@   on call Mutex.Lock(m): sil0 = s.silenced; locked = true
+//@   on enter Shell.resetSilenceTimer(ss, upd): assert(key == 0x0F && !sil0 && upd, "muting_starts_the_lull_clock"); nReset++
+//@   on go s.Logf(c, nts, f, v): nAnnounce++
+//@   exit: assert(imp(key == 0x0F, locked), "ctrl_o_takes_the_write_lock"); assert(imp(key != 0x0F, !locked), "other_keys_leave_muting_alone")
+//@   on enter Mutex.Unlock(m): assert(key == 0x0F && imp(!sil0, s.silenced && nReset == 1 && nAnnounce == 1) && imp(sil0, s.silenced && nReset == 0 && nAnnounce == 1), "ctrl_o_mutes_once_and_announces")
+
+// ---- operator input path (C02)
+//@ func ChanWriter.Write(cw, b) (n, err)
+//@   props C02
+//@   ghost k int = 0
+//@   on send cw(v): assert(v == string(b) && k == 0, "one_send_of_the_whole_payload"); k++
+//@   ensures sent_once: k == 1 && n == len(b) && err == nil
